@@ -112,6 +112,18 @@ NEEDS4 = {
  "C18_a": "per-thread padded input buffer not restored when a call unwinds out of a user buffer accessor: next partial call of any same-typed resampler on that thread sees stale samples as padding",
  "C18_b": "grow-only per-thread padded buffer, copy and clean-up clamp differently: a large partial call, then an over-long partial input to a smaller resampler, then a short partial call of a larger one, all on one thread",
 }
+NEEDS5 = {
+ "C09_a": "FastFixedOut pushes every accepted ratio update into a 1024-entry ring before evicting: the 1025th accepted set_resample_ratio(_relative) on one instance without reset reallocates",
+ "C09_b": "SincFixedIn logs the final step of every ramped call into a Vec::with_capacity(1024) whose only drain sits inside trace!() arguments: the 1025th ramped call of one instance reallocates",
+ "C12_a": "FastFixedIn caps the extra history at 2^14 frames and rejects a ratio whose step does not fit: in-range ratios (incl. the lower bound) are refused only when max_relative/original exceeds 16384 (original 1/12000, max 2)",
+ "C12_b": "SincFixedIn caps output_frames_max at 2^20 and set_chunk_size refuses a size whose needed output exceeds it: sizes inside 1..=construction size are refused once chunk*ratio exceeds 2^20",
+ "C13_a": "validate_buffers returns Ok early when both required lengths are 0: only resamplers built with chunk size 0; wrong channel counts are then accepted or panic",
+ "C13_b": "FftFixedIn/Out::new compute chunk_size / sub_chunks before validate_sample_rates: a zero sample rate together with sub_chunks == 0 panics instead of returning InvalidSampleRate",
+ "C15_a": "AvxInterpolator::new zeroes table entries below 1e-30: one tap (f64, Blackman2, last sub-filter, tap 0, ~1e-36); visible when wave[index] outweighs the rest of the window by ~1e36",
+ "C15_b": "AVX f32 kernel peels its first 8-tap block: identical for sinc_len >= 8, over-reads the wave and an empty table row at the degenerate sinc_len 0",
+ "C17_a": "SincFixedIn skips a channel whose sum of squares is zero: in f32 the squares underflow for |x| below ~2.6e-23, so a quiet signal gives silence while the f64 twin resamples it",
+ "C17_b": "FftResampler::resample_unit pre-checks that the block energy is finite: the f32 energy overflows for finite peaks of ~1e18 and more, so the f32 twin emits NaN blocks",
+}
 ROUND = int(os.environ.get('SEEDED_ROUND', '1'))
 if ROUND == 2:
     NEEDS = NEEDS2
@@ -119,9 +131,11 @@ if ROUND == 3:
     NEEDS = NEEDS3
 if ROUND == 4:
     NEEDS = NEEDS4
-SRC_ROOT = {1: '/tmp/seeded-out', 2: '/tmp/seeded2-out', 3: '/tmp/seeded3-out', 4: '/tmp/seeded4-out'}[ROUND]
-LOGS = {1: ['/tmp/seeded-results.log'], 2: ['/tmp/seeded2-baseline.log', '/tmp/seeded2-new.log', '/tmp/seeded2-thorough.log', '/tmp/seeded2-final.log'], 3: ['/tmp/seeded3-new.log', '/tmp/seeded3-thorough.log', '/tmp/seeded3-final.log'], 4: ['/tmp/seeded4-new.log', '/tmp/seeded4-thorough.log', '/tmp/seeded4-final.log', '/tmp/seeded4-confirm.log']}[ROUND]
-PREFIX = {1: '', 2: 'R2_', 3: 'R3_', 4: 'R4_'}[ROUND]
+if ROUND == 5:
+    NEEDS = NEEDS5
+SRC_ROOT = {1: '/tmp/seeded-out', 2: '/tmp/seeded2-out', 3: '/tmp/seeded3-out', 4: '/tmp/seeded4-out', 5: '/tmp/seeded5-out'}[ROUND]
+LOGS = {1: ['/tmp/seeded-results.log'], 2: ['/tmp/seeded2-baseline.log', '/tmp/seeded2-new.log', '/tmp/seeded2-final.log', '/tmp/seeded2-thorough.log'], 3: ['/tmp/seeded3-new.log', '/tmp/seeded3-final.log', '/tmp/seeded3-thorough.log'], 4: ['/tmp/seeded4-new.log', '/tmp/seeded4-thorough.log', '/tmp/seeded4-final.log', '/tmp/seeded4-confirm.log'], 5: ['/tmp/seeded5-new.log', '/tmp/seeded5-final.log', '/tmp/seeded5-thorough.log']}[ROUND]
+PREFIX = {1: '', 2: 'R2_', 3: 'R3_', 4: 'R4_', 5: 'R5_'}[ROUND]
 res = {}
 cur = None
 import itertools
@@ -134,10 +148,21 @@ for tag, l in lines:
     m = re.match(r'CONFIRM (C\d+) ([ab]) (.*)', l)
     if m:
         cur = f"{m.group(1)}_{m.group(2)}"; res.setdefault(cur, {})['confirm'] = m.group(3).strip(); continue
+    m = re.match(r'VARIANT (C\d+) ([ab])', l)
+    if m:
+        cur = f"{m.group(1)}_{m.group(2)}"; res.setdefault(cur, {}); continue
+    m = re.match(r'APPLY-FAIL (C\d+) ([ab])', l)
+    if m:
+        # the patch does not apply to the tree the confirmation worktree was at (see meta: confirmation)
+        cur = f"{m.group(1)}_{m.group(2)}"; res.setdefault(cur, {}).setdefault('confirm', 'patch did not apply to the confirmation worktree at that time'); continue
+    m = re.match(r'PATCH-DOES-NOT-APPLY', l)
+    if m and cur:
+        res[cur].setdefault('runs', []).append({'stage': tag, 'verdict': 'NOT-APPLICABLE', 'property': cur.split('_')[0], 'detail': 'the patch no longer applies to /repo HEAD (the code it changes was repaired by a later fix: commit)'}); continue
     m = re.match(r'(CAUGHT|MISSED|HARNESS-ERROR) patch.diff (C\d+) (.*)', l)
     if m and cur:
         res[cur].setdefault('runs', []).append({'stage': tag, 'verdict': m.group(1), 'property': m.group(2), 'detail': m.group(3).strip()[:600]})
 rows = []
+tally = []
 for key in sorted(NEEDS):
     p, x = key.split('_')
     src = f"{SRC_ROOT}/{p}/variant_{x}"
@@ -160,17 +185,20 @@ for key in sorted(NEEDS):
             f"tools/run_mutant.sh seeded/{key}/patch.diff quick {p}  (scratch copy of /repo + scratch build of the simulator under /tmp, removed afterwards)",
         ],
         "check_runs": runs,
-        "caught_by_quick_check": any(r['verdict'] == 'CAUGHT' and 'thorough' not in r.get('stage', '') for r in runs[-1:]) ,
+        "caught_by_quick_check": (lambda q: bool(q) and q[-1]['verdict'] == 'CAUGHT')([r for r in runs if 'thorough' not in r.get('stage', '') and r['property'] == p and r['verdict'] in ('CAUGHT', 'MISSED')]),
+        "caught_by_thorough_check": any(r['verdict'] == 'CAUGHT' and 'thorough' in r.get('stage', '') and r['property'] == p for r in runs),
+        "caught_by_other_property_check": sorted(set(r['property'] for r in runs if r['verdict'] == 'CAUGHT' and r['property'] != p)),
         "caught_by_any_run": any(r['verdict'] == 'CAUGHT' for r in runs),
         "stages": [(r.get('stage'), r['verdict']) for r in runs],
     }
     json.dump(meta, open(f"{dst}/meta.json", "w"), indent=1)
     clause = re.search(r'clause=([\w<>=!\-]+)', final.get('detail', ''))
-    rows.append((PREFIX + key, p, ' / '.join(f"{r.get('stage','').replace('seeded2-','').replace('seeded3-','').replace('seeded4-','').replace('seeded-results','run')}:{r['verdict']}" for r in runs) or 'NOT-RUN', clause.group(1) if clause else '', len(runs), NEEDS[key]))
-with open({1: '/verif/seeded/RESULTS.md', 2: '/verif/seeded/RESULTS_round2.md', 3: '/verif/seeded/RESULTS_round3.md', 4: '/verif/seeded/RESULTS_round4.md'}[ROUND], 'w') as f:
+    tally.append((meta['caught_by_quick_check'], meta['caught_by_thorough_check'], bool(meta['caught_by_other_property_check']), any(r['verdict'] == 'NOT-APPLICABLE' for r in runs[-1:])))
+    rows.append((PREFIX + key, p, ' / '.join(f"{r.get('stage','').replace('seeded2-','').replace('seeded3-','').replace('seeded4-','').replace('seeded5-','').replace('seeded-results','run')}{'' if r['property'] == p else '(' + r['property'] + ')'}:{r['verdict']}" for r in runs) or 'NOT-RUN', clause.group(1) if clause else '', len(runs), NEEDS[key]))
+with open({1: '/verif/seeded/RESULTS.md', 2: '/verif/seeded/RESULTS_round2.md', 3: '/verif/seeded/RESULTS_round3.md', 4: '/verif/seeded/RESULTS_round4.md', 5: '/verif/seeded/RESULTS_round5.md'}[ROUND], 'w') as f:
     f.write("# Independent seeded changes (one sub-agent per property, two variants each)\n\n")
     f.write("Each change compiles, passes the 96 existing tests, and has a demonstration that fails with it and passes without it (confirmed in a scratch worktree). `check runs` counts how often the target check was run against it (a second run follows a strengthening of the check, see DESIGN.md section 13).\n\n")
     f.write("| id | property | quick check verdict | first clause | check runs | needs |\n|---|---|---|---|---|---|\n")
     for r in rows:
         f.write(f"| {r[0]} | {r[1]} | {r[2]} | {r[3]} | {r[4]} | {r[5]} |\n")
-print(len(rows), "seeded changes collected;", sum(1 for r in rows if 'CAUGHT' in r[2]), "caught in some run")
+print(len(rows), "seeded changes collected;", sum(1 for t in tally if t[0]), "caught by the last quick run of the target check;", sum(1 for t in tally if not t[0] and t[1]), "more at the thorough tier;", sum(1 for t in tally if not t[0] and not t[1] and t[2]), "more by another property's check;", sum(1 for t in tally if t[3]), "no longer apply")
